@@ -6,10 +6,10 @@ UNIT = {
                   {'file': 'riscv_analysis/src/cfg/test_wrapper.rs', 'item': 'impl From<&Cfg> for CfgWrapper :: fn from'}],
     'obligations': [
         {'id': 'dump_n.faithful', 'recipe': ['dump-search'], 'props': ['C19'], 'kind': 'bounded', 'timeout': 600,
-         'bound': '12 programs: one-instruction self-loops (unconditional and conditional), nested loops, calls, a function entered at two labels, '
-                  'a function with two returns called twice, several labels on one instruction, stack / CSR / data-memory facts with negative and positive offsets',
+         'bound': '16 programs x 8 runs: one-instruction self-loops (unconditional and conditional), nested loops, calls, a function entered at two labels, '
+                  'a function with two returns called twice, several labels on one instruction, an interrupt handler, two functions sharing their tail, nodes with empty fact maps (after an unconditional jump, in a loop after a call), stack / CSR / data-memory facts with negative and positive offsets',
          'clause': 'the emitted YAML loads, and written again gives the same text; node by node the text holds exactly the successors, predecessors, labels, '
-                   'function entries and exits, live-in / live-out / unconditional-definition sets and the four value-fact maps of the analysis result, '
+                   'the (entry, exit) pairs of the owning functions, the handler flag of an entry, live-in / live-out / unconditional-definition sets and the four value-fact maps of the analysis result, '
                    'with as many entries as there are facts, and the instruction itself',
          'tier': 'quick'},
     ],
